@@ -293,6 +293,10 @@ pub struct Module {
     /// generic ones)
     pub insts: Vec<TyExpr>,
     pub serde: bool,
+    /// further registered types, written verbatim and registered TS-only after `insts`
+    /// (non-exportable roots such as `i32` or `Vec<User>` for the fault histories)
+    #[serde(default)]
+    pub extra_roots: Vec<String>,
 }
 
 impl Module {
